@@ -40,7 +40,10 @@ type SQuant struct {
 	VarType *SType // when "forall k T :: ..."
 	Body    SExpr
 }
-type SOld struct{ X SExpr }
+type SOld struct {
+	X        SExpr
+	HeapOnly bool // oldheap(e): fields are read in the entry heap, ghost observers (lastResult, called) stay current
+}
 type STypeOf struct{ X SExpr }
 type SType struct{ Text string }
 type SAssert struct {
@@ -354,7 +357,12 @@ func (p *specParser) primary() SExpr {
 			p.expect("(")
 			e := p.expr()
 			p.expect(")")
-			return SOld{e}
+			return SOld{X: e}
+		case "oldheap":
+			p.expect("(")
+			e := p.expr()
+			p.expect(")")
+			return SOld{X: e, HeapOnly: true}
 		case "typeof":
 			p.expect("(")
 			e := p.expr()
